@@ -33,6 +33,10 @@ Definition pure_ok (x : mem) : bool :=
   (* L *)
   implb (up_eqb (up x) UFailed)
         (match down x with DFailRevoked | DChainTimedOut | DOnChain => true | _ => false end) &&
+  (* R: a forgetting update exists only for an HTLC that was claimed upstream *)
+  implb (match dForget x with FNot => false | _ => true end) (is_claimish (up x)) &&
+  (* S: C's revoke_and_ack is only processed once the update carrying the claimed preimage is complete *)
+  implb (match dForget x with FNot => false | _ => true end) (ust_eqb (dClaimed x) Complete) &&
   (* P: without a blocker the preimage update is already complete *)
   implb (match down x with DFulfilRecv | DFulfilCommitted => true | _ => false end && is_zero (blockers x))
         (preimage_complete x).
@@ -58,7 +62,7 @@ Definition all_ghost : list ghost :=
   flat_map (fun a => flat_map (fun b => map (fun c => {| c_paid := a; c_failed := b; timeout_buried := c |}) all_bool) all_bool) all_bool.
 Definition local_labels : list label :=
   [LForward; LFulfil true; LFulfil false; LCommitFulfil true; LCommitFulfil false; LRaaFulfil true; LRaaFulfil false;
-   LFailMsg; LCommitFail; LRaaFail; LCompleteU; LCompleteClaimed; LCompleteForget; LCloseD;
+   LFailMsg; LCommitFail; LRaaFail; LCompleteU; LCompleteClaimed; LCompleteForget; LDiscD; LCloseD;
    LChainPreimage true; LChainPreimage false; LChainTimeout].
 
 Definition is_local (l : label) : bool := match l with LPersistMgr | LCrash _ _ _ => false | _ => true end.
@@ -66,7 +70,7 @@ Definition is_local (l : label) : bool := match l with LPersistMgr | LCrash _ _ 
 Lemma all_ghost_complete gh : In gh all_ghost.
 Proof. destruct gh as [[] [] []]; cbn; tauto. Qed.
 Lemma local_labels_complete l : is_local l = true -> In l local_labels.
-Proof. destruct l as [ |[]|[]|[]| | | | | | | |[]| | |lu lc lf]; cbn; intros; try discriminate; tauto. Qed.
+Proof. destruct l as [ |[]|[]|[]| | | | | | | | |[]| | |lu lc lf]; cbn; intros; try discriminate; tauto. Qed.
 
 (** one local step preserves everything, for this memory and every ghost / label *)
 Definition local_ok (x : mem) : bool :=
@@ -168,14 +172,17 @@ Lemma landed_facts s lu lc lf :
   implb (c_paid (g s)) eC = true.
 Proof.
   intros (Hp & Hg & _ & _ & Hm). cbv zeta.
-  unfold pure_ok in Hp. unfold gh_ok in Hg. unfold mono in Hm.
+  assert (H1 : implb (forget_at_persister (m s)) (preimage_complete (m s)) = true).
+  { unfold pure_ok in Hp. rewrite !andb_true_iff in Hp. tauto. }
+  assert (H2 : implb (c_paid (g s)) (ust_eqb (dClaimed (m s)) Complete) = true).
+  { unfold gh_ok in Hg. rewrite !andb_true_iff in Hg. tauto. }
+  assert (H5 : implb (match dForget (m s) with FNot => false | _ => true end) (ust_eqb (dClaimed (m s)) Complete) = true).
+  { unfold pure_ok in Hp. rewrite !andb_true_iff in Hp. tauto. }
+  unfold mono in Hm. apply andb_true_iff in Hm. destruct Hm as (H3 & H4).
+  clear Hp Hg.
   unfold landedU, landedF, landedC, forget_at_persister, preimage_complete in *.
-  destruct (m s) as [u d p c f b]. destruct (snap s) as [u0 d0 p0 c0 f0 b0]. destruct (g s) as [gp gf gt].
-  cbn [Fwd.up Fwd.down Fwd.uPre Fwd.dClaimed Fwd.dForget Fwd.blockers c_paid c_failed timeout_buried] in *.
-  destruct p, c, f, p0, c0, gp, lu, lc, lf; cbn in *;
-    repeat match goal with H : _ && _ = true |- _ => apply andb_true_iff in H; destruct H end;
-    repeat split; try reflexivity; try discriminate;
-    repeat match goal with H : context [up_eqb ?a ?b] |- _ => destruct (up_eqb a b) end; cbn in *; try discriminate; try reflexivity.
+  destruct (uPre (m s)), (dClaimed (m s)), (dForget (m s)), (uPre (snap s)), (dClaimed (snap s)),
+    (c_paid (g s)), lu, lc, lf; cbn in *; repeat split; try reflexivity; discriminate.
 Qed.
 
 Lemma step_inv s l : Inv s -> Inv (step s l).
@@ -219,12 +226,12 @@ Proof. apply run_inv. apply inv_init. Qed.
 Lemma preimage_before_forget ls :
   let s := run init ls in
   (forget_at_persister (m s) = true -> preimage_complete (m s) = true) /\
-  (forall lu lc lf, landedF (m s) lf = true -> landedU (m s) lu = true).
+  (forall lu lf, landedF (m s) lf = true -> landedU (m s) lu = true).
 Proof.
   cbv zeta. assert (HI := reachable_inv ls). split.
   - destruct HI as (Hp & _). unfold pure_ok in Hp. rewrite !andb_true_iff in Hp.
-    destruct Hp as ((((_ & H) & _) & _) & _). intros Hf. rewrite Hf in H. exact H.
-  - intros lu lc lf. destruct (landed_facts _ lu lc lf HI) as (F1 & _). cbv zeta in F1.
+    destruct Hp as ((((((_ & H) & _) & _) & _) & _) & _). intros Hf. rewrite Hf in H. exact H.
+  - intros lu lf. destruct (landed_facts _ lu false lf HI) as (F1 & _). cbv zeta in F1.
     intros Hf. rewrite Hf in F1. exact F1.
 Qed.
 
@@ -237,7 +244,7 @@ Lemma claim_whenever_known ls :
   (c_paid (g s) = true -> is_claimish (up (m s)) = true).
 Proof.
   cbv zeta. destruct (reachable_inv ls) as (Hp & Hg & _). split.
-  - unfold pure_ok in Hp. rewrite !andb_true_iff in Hp. destruct Hp as (((_ & H) & _) & _).
+  - unfold pure_ok in Hp. rewrite !andb_true_iff in Hp. destruct Hp as (((((_ & H) & _) & _) & _) & _).
     intros Hf. rewrite Hf in H. exact H.
   - unfold gh_ok in Hg. rewrite !andb_true_iff in Hg. destruct Hg as (((_ & H) & _) & _).
     intros Hc. rewrite Hc in H. exact H.
@@ -249,7 +256,7 @@ Lemma claim_progress ls :
   up (m s) = UClaimInFlight -> up (m (step s LCompleteU)) = UClaimed.
 Proof.
   cbv zeta. destruct (reachable_inv ls) as (Hp & _). intros Hu.
-  unfold pure_ok in Hp. rewrite !andb_true_iff in Hp. destruct Hp as ((((H & _) & _) & _) & _).
+  unfold pure_ok in Hp. rewrite !andb_true_iff in Hp. destruct Hp as ((((((H & _) & _) & _) & _) & _) & _).
   cbn [step]. unfold lstep. destruct (m (run init ls)) as [u d p c f b].
   cbn [Fwd.up Fwd.uPre] in *. subst u. destruct p; cbn in H; try discriminate.
   cbn. unfold release. cbn. destruct f; reflexivity.
